@@ -11,7 +11,7 @@ SPECS = [
     ),
     # which successor value / non-terminal flag a step uses
     dict(
-        name="gae_next", qual=_Q, start=r"^if step == ", end=None,
+        name="gae_next", qual=_Q, start=r"^if step\b", end=None,
         inputs=[("step", "Z"), ("buffer_size", "Z"), ("done_last", "Q"), ("last_v", "Q"), ("es_next", "Q"), ("v_next", "Q")],
         subst={"self.buffer_size": "buffer_size", "dones.astype(np.float32)": "done_last", "last_values": "last_v",
                "self.episode_starts[step + 1]": "es_next", "self.values[step + 1]": "v_next"},
@@ -28,7 +28,7 @@ SPECS = [
     ),
     # minibatch slicing of get()
     dict(
-        name="rollout_get_guard", qual="RolloutBuffer.get", start=r"^while start_idx < ", end=None, kind="test",
+        name="rollout_get_guard", qual="RolloutBuffer.get", start=r"^while start_idx\b", end=None, kind="test",
         inputs=[("start_idx", "Z"), ("buffer_size", "Z"), ("n_envs", "Z")],
         subst={"self.buffer_size": "buffer_size", "self.n_envs": "n_envs"},
     ),
@@ -37,7 +37,7 @@ SPECS = [
         inputs=[("start_idx", "Z"), ("batch_size", "Z")], outputs=[("start_idx", "Z")],
     ),
     dict(
-        name="dictrollout_get_guard", qual="DictRolloutBuffer.get", start=r"^while start_idx < ", end=None, kind="test",
+        name="dictrollout_get_guard", qual="DictRolloutBuffer.get", start=r"^while start_idx\b", end=None, kind="test",
         inputs=[("start_idx", "Z"), ("buffer_size", "Z"), ("n_envs", "Z")],
         subst={"self.buffer_size": "buffer_size", "self.n_envs": "n_envs"},
     ),
